@@ -176,12 +176,13 @@ func init() {
 	// release its outputs once.  Prints: frames drawn, glfw terminations, portaudio stream closes/terminations.
 	register("gb.runclose", func(a []string) {
 		g := gbs[ai(a, 1)]
-		glfw.CloseAfter = ai(a, 2)
+		before := glfw.SwapCalls // frames drawn by earlier gb.frames operations do not count
+		glfw.CloseAfter = before + ai(a, 2)
 		done := make(chan struct{})
 		go func() { g.gb.Run(context.Background()); close(done) }()
 		select {
 		case <-done:
-			emit("run returned frames=%d glfwTerminate=%d paClose=%d paTerminate=%d", glfw.SwapCalls, glfw.TerminateCalls, portaudio.CloseCalls, portaudio.TerminateCalls)
+			emit("run returned frames=%d glfwTerminate=%d paClose=%d paTerminate=%d", glfw.SwapCalls-before, glfw.TerminateCalls, portaudio.CloseCalls, portaudio.TerminateCalls)
 		case <-time.After(60 * time.Second):
 			emit("run did not return")
 		}
